@@ -253,6 +253,12 @@ class C06(Check):
                         mon.append(f'missing path {path!r} raised {tok} instead of the not-found error')
                 outs.append(tok)
                 m = drv.ask(('romfs-lookup', file_bytes, start, int(ci), path.encode('utf-16le')))
+                if tok == 'e:OverflowError' and m.startswith('file ') and not wf:
+                    # a (mutated) 64-bit file offset at or beyond 2^63: the base file object cannot address it (OverflowError from
+                    # its seek); the model does not bound positions - a library limit, not a statement about the reader
+                    parts = m.split()
+                    if int(parts[2]) + int(parts[3]) >= (1 << 63) - (1 << 32):
+                        m = tok
                 models.append(m if not m.startswith('dir') else m.rstrip(' ') + (' ' if m.count(' ') < 2 else ''))
                 if mon and key is None:
                     key = 'romfs.lookup'
